@@ -133,8 +133,8 @@ def load_module(hashed_grammar, file_io, cache_path=None):
 
 
 def _load_from_file_system(hashed_grammar, path, p_time, cache_path=None):
-    cache_path = _get_hashed_path(hashed_grammar, path, cache_path=cache_path)
     try:
+        cache_path = _get_hashed_path(hashed_grammar, path, cache_path=cache_path)
         if p_time > os.path.getmtime(cache_path):
             # Cache is outdated
             return None
@@ -147,7 +147,14 @@ def _load_from_file_system(hashed_grammar, path, p_time, cache_path=None):
                 gc.enable()
     except FileNotFoundError:
         return None
+    except Exception:
+        # A cache file that is empty, truncated or otherwise broken (e.g. after
+        # a crash, a full disk or while another process is writing it) and a
+        # cache directory that cannot be accessed are just cache misses.
+        return None
     else:
+        if not isinstance(module_cache_item, _NodeCacheItem):
+            return None
         if p_time > module_cache_item.change_time:
             # The pickle is newer than the file, but it was created from an
             # older version of the file (it was modified while being parsed).
